@@ -1,1 +1,2 @@
 //! Shared helpers for the verification harness binaries.
+pub mod eval;
